@@ -380,6 +380,7 @@ func propC02(c *Ctx) {
 
 func propC03(c *Ctx) {
 	c.Clauses = append(c.Clauses,
+		"FinalizeTokenWithdrawal: no store write, keeper write or event before output-root and proof equality (a rejected claim leaves no mark)",
 		"the payout is reachable only with: Validate ok, the output at (req.BridgeId, req.OutputIndex) final, its stored root equal to GenerateOutputRoot(req.Version[0], req.StorageRoot, req.LastBlockHash), and req.StorageRoot equal to the root folded from GenerateWithdrawalHash(the six claimed fields) through req.WithdrawalProofs",
 		"what is paid is what was proven: recipient, denom and amount operands of the bank send are the hashed request fields; escrow of the same bridge id",
 		"every parameter of the four digest functions reaches the hashed byte layout (E8)",
